@@ -31,7 +31,26 @@ pub fn gen_battery(tier: &str, seed: u64) -> String {
         let arch = if w % 2 == 0 { Arch::X64 } else { Arch::A64 };
         let policy = if (w / 2) % 3 == 2 { "mustnot" } else { "may" };
         let n_mods = 1 + p.below(3) as usize;
-        let mods: Vec<ModSpec> = gen_modules(&mut p, arch, n_mods, None).into_iter().filter(|m| m.base_avma <= m.start).collect();
+        let mut mods: Vec<ModSpec> = gen_modules(&mut p, arch, n_mods, None).into_iter().filter(|m| m.base_avma <= m.start).collect();
+        // one world in four has a mapping nested inside another module's range (without unwind
+        // data, or with the outer module's): which module such addresses are given to must not
+        // depend on the enabled features either
+        if p.chance(1, 4) {
+            let big: Vec<usize> = (0..mods.len()).filter(|i| mods[*i].end - mods[*i].start >= 0x100).collect();
+            if !big.is_empty() {
+                let o = mods[*p.pick(&big)].clone();
+                let len = o.end - o.start;
+                let start = o.start + len / 4 + p.below(len / 4);
+                let mut inner = o.clone();
+                inner.start = start;
+                inner.end = start + 1 + p.below(len / 4);
+                if p.chance(2, 3) {
+                    inner.data = DataSpec::None;
+                    inner.base_avma = start;
+                }
+                mods.push(inner);
+            }
+        }
         let mut ids = Vec::new();
         for m in &mods {
             let raw = RawSections::from_provider(dwarf_section_info(arch, m));
